@@ -59,6 +59,8 @@ static const char *probe_names[PR_MAX] = {
 	"reg_failed_event", "timer_many", "radix_cross",
 };
 
+extern int __llvm_profile_write_file(void) __attribute__((weak));
+
 /* ---- violations / result ------------------------------------------------------- */
 void viol(const char *id, const char *fmt, ...)
 {
@@ -153,6 +155,8 @@ void finish(int status)
 	}
 	n += snprintf(o + n, cap - n, "END\n");
 	sh->result_len = n;
+	if (__llvm_profile_write_file)
+		__llvm_profile_write_file();	/* coverage flavour: the run's counters are merged into the pool file */
 	_exit(status == 1 ? 3 : 0);
 }
 
